@@ -272,7 +272,7 @@ def build_cases(bases, tier, rng):
     for wb in bases:
         _w, a = A.abstract(wb)
         for cls, (gen, kinds, listed) in F.CLASSES.items():
-            sites = [(site, wbf, pattern, position_key(a.position_of(site))) for site, wbf, pattern in gen(wb, a)]
+            sites = [(site, wbf, pattern, a.position_of(site)) for site, wbf, pattern in gen(wb, a)]
             strata[f"sites.{cls}"] = strata.get(f"sites.{cls}", 0) + len(sites)
             for s in sites:
                 if s[3]:
@@ -281,8 +281,8 @@ def build_cases(bases, tier, rng):
                 keep = {0, len(sites) - 1} if len(sites) > 40 else {rng.randrange(len(sites))}
                 keep.add(rng.randrange(len(sites)))
                 keep.add(rng.randrange(len(sites)))
-                # position classes are part of the enumeration in every tier: one site of this fault class in
-                # each kind of redefined definition (replaced later / replacing an earlier one / both)
+                # position classes are part of the enumeration in every tier: one site of this fault class in each
+                # kind of redefined definition (flow / campaign / trigger sheet × replaced later / replacing / both)
                 for pos in sorted({s[3] for s in sites if s[3]}):
                     keep.add(rng.choice([i for i, s in enumerate(sites) if s[3] == pos]))
                 sites = [s for i, s in enumerate(sites) if i in keep]
@@ -293,15 +293,6 @@ def build_cases(bases, tier, rng):
                 cases.append({"id": n, "cls": cls, "base": wb["name"], "site": site, "wb": wbf, "pattern": pattern,
                               "kinds": sorted(kinds), "listed": listed, "modes": modes, "position": pos})
     return cases, strata
-
-
-def position_key(classes) -> str:
-    """'' for an ordinary position; otherwise which kind of redefined definition the fault sits in"""
-    if not classes:
-        return ""
-    if len(classes) == 1:
-        return classes[0]
-    return A.Abstraction.BOTH
 
 
 def run(ck: core.Check):
@@ -389,8 +380,12 @@ def run(ck: core.Check):
         raise core.Infra(f"generator self-check: no case for fault classes {missing}")
     # … and every fault class that lives in a flow sheet / a create_flow row must have been put into a definition
     # that a later row redefines AND into one that redefines an earlier one
-    missing = [(c, p) for c in REDEF_CLASSES for p in (A.Abstraction.LATER, A.Abstraction.EARLIER)
-               if not ck.strata.get("class×position.%s | %s" % (c, A.Abstraction.SHORT[p]))]
+    AB = A.Abstraction
+    need = [(c, "flow definition " + p) for c in REDEF_CLASSES for p in (AB.LATER, AB.EARLIER)]
+    # campaign parsers are created (sheet read, rows validated) when their index row is read, trigger parsers too
+    need += [("missing sheet", k + " " + p) for k in ("campaign definition", "trigger sheet") for p in (AB.LATER, AB.EARLIER)]
+    need.append(("trigger for unknown flow", "trigger sheet " + AB.BOTH))
+    missing = [(c, p) for c, p in need if not ck.strata.get("class×position.%s | %s" % (c, p))]
     if missing:
         raise core.Infra(f"generator self-check: no case for (fault class, redefinition position) {missing}")
 
@@ -418,7 +413,7 @@ def fold(ck, cases, recs, search=False):
         ck.count("base." + c["base"])
         if c.get("position"):
             ck.count(("search." if search else "cases.") + "position." + c["position"])
-            ck.count("class×position.%s | %s" % (c["cls"], A.Abstraction.SHORT[c["position"]]))
+            ck.count("class×position.%s | %s" % (c["cls"], c["position"]))
         if r["pred"].get("fault"):
             ck.count("model fault." + r["pred"]["fault"]["k"])
         if r.get("skipped"):
